@@ -83,3 +83,43 @@ Definition may_touch (c : sys) (l : loc) : Prop :=
   | RemoveDirAll p => under p l = true
   | ReadFile _ | Exists _ | WalkFiles _ | ReadDir _ => False
   end.
+
+(* ---------- fault semantics ---------- *)
+(* a step that can fail: everything except [Path::exists], which swallows errors and answers false *)
+Definition faultable (c : sys) : Prop := match c with Exists _ => False | _ => True end.
+
+(* runs in which any number of steps fail: a failing step answers an errno and leaves the tree as it was or in one
+   of the step's intermediate states (a short write, some of the directories created, part of a copy) *)
+Inductive frun {A} : prog A -> fs -> A -> fs -> Prop :=
+| FRet a f : frun (Ret a) f a f
+| FStep c k f a f'' : frun (k (fst (exec c f))) (snd (exec c f)) a f'' -> frun (Do c k) f a f''
+| FFault c k f e g a f'' :
+    faultable c -> (g = f \/ In g (mid_states c f)) -> frun (k (RErr e)) g a f'' -> frun (Do c k) f a f''.
+
+(* the answers a step can give at all: its own kind of payload, or an errno *)
+Definition shape (c : sys) (r : ret) : Prop :=
+  match r with
+  | RErr _ => faultable c
+  | RBytes _ => match c with ReadFile _ => True | _ => False end
+  | RBool _ => match c with Exists _ => True | _ => False end
+  | RName _ => match c with CreateTmp => True | _ => False end
+  | RLocs _ => match c with WalkFiles _ | ReadDir _ => True | _ => False end
+  | RNum _ => match c with WriteAppend _ _ | CopyFile _ _ => True | _ => False end
+  | ROk => match c with ReadFile _ | Exists _ | CreateTmp | WalkFiles _ | ReadDir _ => False | _ => True end
+  end.
+
+(* [Q] holds of the result whatever the steps answer *)
+Fixpoint fpost {A} (Q : A -> Prop) (p : prog A) : Prop :=
+  match p with
+  | Ret a => Q a
+  | Do c k => forall r, shape c r -> fpost Q (k r)
+  end.
+
+(* the steps of faulty runs, each with the state it is issued in *)
+Fixpoint fsteps {A} (S : sys -> fs -> Prop) (p : prog A) (f : fs) : Prop :=
+  match p with
+  | Ret _ => True
+  | Do c k =>
+      S c f /\ fsteps S (k (fst (exec c f))) (snd (exec c f)) /\
+      (faultable c -> forall e g, (g = f \/ In g (mid_states c f)) -> fsteps S (k (RErr e)) g)
+  end.
